@@ -266,6 +266,15 @@ def check(ctx):
     _private(ix, rep, m, cls)
     _map(ix, rep, m)
     _free(ix, rep)
+    # the free-wire filter of R-C22-free reads tape.wires; a copy of a tape that keeps the original's memoised `wires` although
+    # its measurements / operations were replaced hides a used wire from the allocator (rule shared with C40's R-C40-cache)
+    rep.rule("R-C22-tapewires", "QuantumScript.copy(**update) carries a memoised `wires` to the copy only under a guard that excludes an update of the "
+             "operations and of the measurements")
+    _promise(ix, rep)
+    from .c40_extra import cache_part
+
+    if not cache_part(ix, rep, rule="R-C22-tapewires", slots={"wires", "_wires", "num_wires"}, floor=0):
+        rep.proved("R-C22-tapewires", "pennylane/core/qscript.py:QuantumScript.copy", "the memoised wires are never carried to a copy", nontrivial=False)
     return rep
 
 
@@ -560,3 +569,45 @@ def _map(ix, rep, m):
             rep.proved("R-C22-map", f"{m.relpath}:_new_ops other", "operators are checked against the deallocated set before being emitted")
         else:
             rep.refuted("R-C22-map", m.relpath, "_new_ops", y.stmt, "an operator can be emitted without the use-after-deallocation check")
+
+
+ALLOC = "pennylane/allocation.py"
+
+
+def _promise(ix, rep):
+    """R-C22-promise: the allocator trusts `restored` (R-C22-zero sends a wire back to the zero register under it); what an Allocate operator
+    records must therefore be what the caller promised, never something stronger."""
+    from ..astutil import expand_locals
+
+    rep.rule("R-C22-promise", "Allocate.__init__ records under 'restored' the caller's argument itself (possibly through bool()): the promise is never "
+             "or-ed with another condition — a wire the user did not promise to restore must not be filed as clean")
+    cls = ix.cls(ALLOC, "Allocate")
+    init = cls.own_method("__init__")
+    if init is None:
+        raise AnalysisError("Allocate.__init__ vanished")
+    rep.analysed(ALLOC, init.qualname)
+    n = 0
+    for st in init.node.body:
+        vals = []
+        if isinstance(st, ast.Assign) and any("_hyperparameters" in norm(t) or "hyperparameters" in norm(t) for t in st.targets):
+            if isinstance(st.value, ast.Dict):
+                vals = [v for k, v in zip(st.value.keys, st.value.values) if isinstance(k, ast.Constant) and k.value == "restored"]
+            if isinstance(st.targets[0], ast.Subscript) and isinstance(st.targets[0].slice, ast.Constant) and st.targets[0].slice.value == "restored":
+                vals = [st.value]
+        for v in vals:
+            n += 1
+            e = expand_locals(init.node, st, v)
+            while isinstance(e, ast.Call) and isinstance(e.func, ast.Name) and e.func.id == "bool" and len(e.args) == 1:
+                e = e.args[0]
+            where = f"{ALLOC}:Allocate.__init__ restored={norm(v)}"
+            if isinstance(e, ast.Name) and e.id == "restored":
+                rep.proved("R-C22-promise", where, "the caller's promise, unchanged")
+            elif isinstance(e, ast.BoolOp) and isinstance(e.op, ast.Or) and any("restored" in norm(x) for x in e.values):
+                rep.refuted("R-C22-promise", ALLOC, "Allocate.__init__", st,
+                            f"the recorded promise is `{norm(e)[:70]}`: it is true in cases where the caller passed restored=False, so the allocator files a "
+                            "wire the circuit leaves dirty back into the zero register and hands it out as |0> without a reset")
+            elif isinstance(e, ast.Constant) and e.value is True:
+                rep.refuted("R-C22-promise", ALLOC, "Allocate.__init__", st, "every allocation is recorded as restored, whatever the caller promised")
+            else:
+                rep.unknown("R-C22-promise", where, "recorded value not classified")
+    rep.floor("recordings of the restored promise", n, 1)
